@@ -16,7 +16,7 @@ extern "C" const char *alw_kind_name(int) __attribute__((weak));
 static bool have_fi() { return &alw != nullptr; }
 
 static const Pool &pool(hz::Ctx &ctx) { static Pool p = build_pool(ctx.seed, 2); return p; }
-static std::string tmpdir() { static std::string d; if (d.empty()) { d = "/verif/build/tmp"; mkdir("/verif/build", 0755); mkdir(d.c_str(), 0755); d += "/w" + std::to_string(getpid()); mkdir(d.c_str(), 0755); } return d; }
+static std::string tmpdir() { static std::string d; if (d.empty()) { const char *root = getenv("VERIF_ROOT"); std::string rb = std::string(root ? root : "/verif") + "/build"; d = rb + "/tmp"; mkdir(rb.c_str(), 0755); mkdir(d.c_str(), 0755); d += "/w" + std::to_string(getpid()); mkdir(d.c_str(), 0755); } return d; }
 static bool write_file(const std::string &p, const std::string &data) { FILE *f = fopen(p.c_str(), "wb"); if (!f) return false; bool ok = data.empty() || fwrite(data.data(), 1, data.size(), f) == data.size(); fclose(f); return ok; }
 static bool read_all(const std::string &p, std::string &out) { return hz::read_file(p, out); }
 static std::string tohex(const std::string &s) { std::string o; char b[4]; for (unsigned char c : s) { snprintf(b, sizeof b, "%02x", c); o += b; } return o; }
@@ -57,7 +57,7 @@ static FV check19(const C19Case &c) {
     if (rb != 0) res = bad("bin-file", "asm_create_bin_file returned " + std::to_string(rb));
     else if (!read_all(bin, got) && of != 0) res = bad("bin-file", "output file missing");
     else if ((int)got.size() != of || memcmp(got.data(), bf.data(), of)) res = bad("bin-file", "file holds " + std::to_string(got.size()) + " bytes, offset is " + std::to_string(of) + (got.size() == (size_t)of ? " (content differs)" : ""));
-    if (res.ok) { int k = of / 2; asm_set_offset(f, k); unlink(bin.c_str()); rb = asm_create_bin_file(f, bin.c_str()); got.clear(); read_all(bin, got); if (rb != 0 || (int)got.size() != k || memcmp(got.data(), bf.data(), k)) res = bad("bin-file", "after asm_set_offset(" + std::to_string(k) + ") the file holds " + std::to_string(got.size()) + " bytes"); }
+    if (res.ok) { int k = of / 2; asm_set_offset(f, k); /* same path, now longer than the code: must be replaced, not patched */ rb = asm_create_bin_file(f, bin.c_str()); got.clear(); read_all(bin, got); if (rb != 0 || (int)got.size() != k || memcmp(got.data(), bf.data(), k)) res = bad("bin-file", "after asm_set_offset(" + std::to_string(k) + ") the file holds " + std::to_string(got.size()) + " bytes"); }
   }
   asm_destroy_instance(f); asm_destroy_instance(s);
   return res;
@@ -129,7 +129,7 @@ static FI run17(const Pool &P, const C17Case &c) {
   write_file(inpath, c.scenario == 6 ? prog_long : prog_small);
   unlink(outpath.c_str());
   std::vector<uint8_t> ext(4096, 0xcc);
-  alw_reset(); alw.fail_at = c.fail_at; alw.fail_at2 = c.fail_at2;
+  alw.guard_code = 1; alw_reset(); alw.fail_at = c.fail_at; alw.fail_at2 = c.fail_at2;
   auto api = [&](const char *name, const std::function<int()> &f, int &rc) -> bool { long before = alw.counter; alw.armed = 1; rc = f(); alw.armed = 0; bool hit = alw.failed_index > before && alw.failed_index <= alw.counter; if (hit) v.faulted = std::string(name) + " (" + alw_kind_name(alw.failed_kind) + " call #" + std::to_string(alw.failed_index) + ")"; v.trace += std::string(name) + "=" + std::to_string(rc) + (hit ? "[fault] " : " "); return hit; };
   assemblyline_t a = nullptr; int rc = 0; bool hit;
   // ---- create
@@ -159,6 +159,20 @@ static FI run17(const Pool &P, const C17Case &c) {
       break; }
   }
   if (!intact("after the faulted call (" + v.faulted + ")")) { asm_destroy_instance(a); return v; }
+  // ---- the instance stays usable: more code can be appended (and grows the buffer again) without corrupting anything
+  if (c.scenario == 2 || c.scenario == 6 || c.scenario == 3) {
+    int off_before = asm_get_offset(a);
+    if (off_before >= 0) {
+      hit = api("asm_assemble_str(more)", [&] { return asm_assemble_str(a, prog_long.c_str()); }, rc);
+      if (!hit && rc != 0) { asm_destroy_instance(a); return bad("unusable", "after " + (v.faulted.empty() ? std::string("the scenario") : v.faulted) + " a further assembly from offset " + std::to_string(off_before) + " failed"); }
+      if (!intact("after appending more code")) { asm_destroy_instance(a); return v; }
+      if (rc == 0) { // the appended code must equal what a caller buffer gets
+        std::vector<uint8_t> big(1 << 20, 0); assemblyline_t e = asm_create_instance(big.data(), (int)big.size()); asm_assemble_str(e, prog_long.c_str()); int n = asm_get_offset(e); int off_after = asm_get_offset(a);
+        bool same = off_after - off_before == n && !memcmp((uint8_t *)asm_get_code(a) + off_before, big.data(), n); asm_destroy_instance(e);
+        if (!same) { asm_destroy_instance(a); return bad("corrupted", "code appended after " + (v.faulted.empty() ? std::string("the scenario") : v.faulted) + " differs from the caller-buffer result"); }
+      }
+    }
+  }
   // ---- the instance is still usable for retrieval and can be destroyed
   if (asm_get_code(a) == nullptr) { return bad("code-lost", "asm_get_code returned NULL"); }
   hit = api("asm_destroy_instance", [&] { return asm_destroy_instance(a); }, rc);
